@@ -459,11 +459,8 @@ def from_long_to_nested(
     )
     X_nested = from_multi_index_to_nested(X_nested, instance_index=instance_column_name)
 
-    n_columns = X_nested.shape[1]
-    if column_names is None:
-        X_nested.columns = _make_column_names(n_columns)
-
-    else:
+    # keep the dimension identifiers the long table carries unless told otherwise
+    if column_names is not None:
         X_nested.columns = column_names
 
     # # get distinct dimension ids
